@@ -443,6 +443,9 @@ theorem step_snaps (cfg : Cfg) (n : Node) (op : Op) (hop : op ≠ .freset) : Ste
     | hsdone sid =>
       simp only [step, isSessOp]
       split <;> exact one_of_quiet (quiet_of_eq rfl rfl)
+    | sdrop sid =>
+      simp only [step, isSessOp]
+      split <;> exact one_of_quiet (quiet_of_eq rfl rfl)
     | resume rid newRid =>
       simp only [step, isSessOp]
       split
